@@ -5,12 +5,13 @@ from .common import header_diff, native_names, prog_features, sig, case_prog
 RULE = ("random programs using constants as gate argument, qubit index, register size, alias start/stop/step/index, loop "
         "count, subcircuit count, inside macros with and without shadowing parameters; override dictionaries over subsets "
         "of the declared constants (int and float values that keep every reference in range, incl. values changing register "
-        "sizes, indices and loop counts); also via parse_jaqal_string(expand_let=True, override_dict=...); oracle = reference "
+        "sizes, indices and loop counts); also via parse_jaqal_string(expand_let=True, override_dict=...); also after earlier fill_in_let calls with other "
+        "environments on the same circuit object and with one override dictionary object shared by many calls; oracle = reference "
         "let evaluation on the input IR; non-trivial = at least one constant is referenced; distinct = S-expression + overrides")
 ASSUMPTIONS = ["reference let evaluation in vf/meaning.py", "override values are numbers; overrides that the reference "
                "semantics finds out of range are not judged here (C14)"]
 TIERS = {"quick": {"shards": 8, "budget_s": 40}, "thorough": {"shards": 16, "budget_s": 300}}
-REQUIRE = {"override-used": 200, "let-sized-register": 100, "let-bound-map": 100, "shadowed-let-in-macro": 20,
+REQUIRE = {"calls-after-earlier-calls-on-same-object": 500, "override-used": 200, "let-sized-register": 100, "let-bound-map": 100, "shadowed-let-in-macro": 20,
            "via-parser": 100, "let-count": 100}
 
 
@@ -51,6 +52,10 @@ def judge(case):
     except M.OracleError as ex:
         return "inconclusive:oracle:%s" % ex, []
     fails = []
+    # earlier calls on the SAME circuit object with other environments (a parameter sweep over one parsed circuit):
+    # whatever they leave behind must not influence the judged call
+    for prior in case.get("prior") or ():
+        lib.outcome(lib.fill_in_let, c, dict(prior) or None)
     passed = case.get("_shared_dict")
     if passed is None:
         passed = dict(ov)
@@ -189,6 +194,10 @@ def process(ctx, case, seen):
             rec.violation(sig("C05", clause), detail, {k: v for k, v in case.items() if k != "_shared_dict"})
             continue
         base = {"ov": case.get("ov"), "via_parser": case.get("via_parser")}
+        if case.get("prior"):
+            base["prior"] = case["prior"]
+            if clause in _clauses(dict(base, prog=prog, prior=[])):
+                base.pop("prior")  # fails without the earlier calls as well: report the simpler case
         small = minimise.minimise(prog, lambda p: clause in _clauses(dict(base, prog=p)), budget=250)
         small_case = dict(base, prog=small)
         # drop overrides that are not needed
@@ -200,6 +209,8 @@ def process(ctx, case, seen):
         feats = prog_features(small)
         if small_case.get("ov"):
             feats.add("override")
+        if small_case.get("prior"):
+            feats.add("after-earlier-calls-on-same-object")
         rec.violation(sig("C05", clause, feats), d2[0][1] if d2 else detail, small_case)
 
 
@@ -216,9 +227,14 @@ def shard(ctx):
                         p_hostile_names=0.05, macro_sub=rng.random() < 0.3, p_usepulses=0.3, p_let_reg=0.5,
                         p_let_count=0.6, p_let_index=0.5, p_let_arg=0.5, wild_numbers=rng.random() < 0.3, p_sub_count=0.7)
         prog = g.program()
+        earlier = []
         for attempt in range(3):
             ov = make_override(rng, prog) if rng.random() < 0.8 else {}
             case = {"prog": prog, "ov": ov, "via_parser": rng.random() < 0.3}
+            if earlier and not case["via_parser"] and rng.random() < 0.6:
+                case["prior"] = list(earlier)
+                rec.count("calls-after-earlier-calls-on-same-object")
+            earlier.append(dict(ov))
             if ov and rng.random() < 0.5:
                 # the caller keeps using one dictionary object for many circuits (a sweep)
                 SWEEP.clear()
@@ -239,4 +255,6 @@ def replay(ctx, case):
         feats = prog_features(prog)
         if case.get("ov"):
             feats.add("override")
+        if case.get("prior"):
+            feats.add("after-earlier-calls-on-same-object")
         ctx.rec.violation(sig("C05", clause, feats), detail, case)
